@@ -100,6 +100,10 @@ Problems(ev) ==
          THEN {"B and N compile identical expression trees to different rows"} ELSE {})
    \cup (IF ev.T.has_lm /\ ev.P.has_lm /\ ~SameRows(ev.T.lm, ev.P.lm) THEN {"the pipe runner and the parser+linearizer compile the same text to different rows"} ELSE {})
    \cup ReadBackProblems(ev, ev.B) \cup {"N: " \o p : p \in ReadBackProblems(ev, ev.N)}
+   \* a model without an objective has no optimum to compare, but every door reports the same value for it
+   \cup (IF ev.sense = "sat" /\ \E i, j \in 1..Len(Doors) : Res(ev, Doors[i]).out = "solution" /\ Res(ev, Doors[j]).out = "solution"
+                                    /\ ~ObsEq(Res(ev, Doors[i]).value, Res(ev, Doors[j]).value)
+         THEN {"the doors report different values for a model without an objective"} ELSE {})
 
 Check(ev) ==
    LET pb == Problems(ev) IN
